@@ -94,6 +94,12 @@ def report(chk, tier, owns, fault_owns=(), rule="heap-exploration"):
                 "from every explored state. A bounded exploration: no violation among the explored abstract heaps.")
     chk.not_decided.append("heaps with more than K objects / operation sequences longer than the explored depth (bounded exploration; "
                            "the unbounded argument is the induction of DESIGN.md §7 over the per-primitive tables)")
+    for a in ("E6: user Collect::trace is exact - it reports every strong child to trace_gc and every weak child to trace_gc_weak "
+              "(discharged for derived and provided impls by C15 / C16) - or panics after a prefix of them",
+              "E6: the mutator reaches objects only from the root through strong edges, through a successful upgrade, or by "
+              "allocating them (what the brand / borrow rules of C12 and C03 give safe code)"):
+        if a not in chk.assumptions:
+            chk.assumptions.append(a)
     summary = {}
     for label, r in res.items():
         st = r["stats"]
